@@ -3,7 +3,7 @@
    the fast-path canonical branches and kStruct-with-missing-fields emit entries, given the
    order [es] in which the runtime happened to produce them). *)
 From Coq Require Import List ZArith NArith Bool Permutation Sorted.
-From Verif Require Import C08.Model C08.Proofs.
+From Verif Require Import C08.Model C08.Proofs C08.ProofsNested.
 Import ListNotations.
 
 (* the property at full strength: for EVERY map (distinct keys of one kind) any two iteration
@@ -100,7 +100,24 @@ Theorem C08_struct : forall (O : Type) (encO : O -> list N) (V : Type) (fields m
 Proof. exact struct_lemma. Qed.
 Print Assumptions C08_struct.
 
+(* maps at any depth: two views of one value (maps listing their entries in any order, at every
+   level) have the same canonical form, provided every map in it satisfies the guard *)
+Theorem C08_nested : forall (O : Type) (encO : O -> list N) (v v' : tval O),
+  tequiv O v v' -> wfkeys O encO v -> canon O encO v = canon O encO v'.
+Proof. exact nested_lemma. Qed.
+Print Assumptions C08_nested.
+
 (* ---- non-vacuity ---- *)
+Example C08_nested_nonvacuous :
+  let inner  := TMap skeyv KKString [(KS [98%N], TLeaf skeyv 1); (KS [97%N], TLeaf skeyv 2)] in
+  let inner' := TMap skeyv KKString [(KS [97%N], TLeaf skeyv 2); (KS [98%N], TLeaf skeyv 1)] in
+  let v  := TMap skeyv KKInt [(KI 2%Z, inner); (KI 1%Z, TList skeyv [inner'; TLeaf skeyv 0])] in
+  let v' := TMap skeyv KKInt [(KI 1%Z, TList skeyv [inner; TLeaf skeyv 0]); (KI 2%Z, inner')] in
+  canon skeyv enc_scalar v = canon skeyv enc_scalar v' /\
+  canon skeyv enc_scalar v =
+    TMap skeyv KKInt [(KI 1%Z, TList skeyv [inner'; TLeaf skeyv 0]); (KI 2%Z, inner')].
+Proof. vm_compute. split; reflexivity. Qed.
+
 Example C08_perm_nonvacuous :
   let es := [(KI 5%Z, 0%N); (KI (-3)%Z, 1%N); (KI 40%Z, 2%N)] : list (key skeyv * N) in
   keys_ok skeyv enc_scalar N KKInt es /\ NoDup (map fst es) /\
